@@ -224,12 +224,23 @@ impl GeneralTerm {
     fn rename_conflicting_symbols(self, possible_conflicts: &IndexSet<Predicate>) -> Self {
         match self {
             GeneralTerm::SymbolicTerm(SymbolicTerm::Symbol(s)) => {
-                let predicate = Predicate {
-                    symbol: s.clone(),
-                    arity: 0,
+                // A symbol that looks like a renamed conflicting symbol (`p__s`, `p__s__s`, ...)
+                // is renamed as well: otherwise it would coincide with the new name of `p`.
+                let mut base = s.as_str();
+                let conflict = loop {
+                    let predicate = Predicate {
+                        symbol: base.to_string(),
+                        arity: 0,
+                    };
+                    if possible_conflicts.contains(&predicate) {
+                        break true;
+                    }
+                    match base.strip_suffix("__s") {
+                        Some(shorter) => base = shorter,
+                        None => break false,
+                    }
                 };
-                // TODO: increment new name while conflicts exist
-                if possible_conflicts.contains(&predicate) {
+                if conflict {
                     GeneralTerm::SymbolicTerm(SymbolicTerm::Symbol(format!("{s}__s")))
                 } else {
                     GeneralTerm::SymbolicTerm(SymbolicTerm::Symbol(s))
